@@ -17,6 +17,7 @@ import (
 	"github.com/paulsonkoly/chess-3/board"
 	. "github.com/paulsonkoly/chess-3/chess"
 	"github.com/paulsonkoly/chess-3/move"
+	"github.com/paulsonkoly/chess-3/movegen"
 	"github.com/paulsonkoly/chess-3/search"
 	"github.com/paulsonkoly/chess-3/uci"
 
@@ -72,6 +73,14 @@ func (m *mockSearch) Go(b *board.Board, opts ...search.Option) (Score, move.Move
 	if g < len(m.specs) {
 		spec = m.specs[g]
 	}
+	// like the real search the mock works ON the driver's board: while it runs a move is made (the side to move
+	// of that board is the opponent), and it is taken back before the search returns
+	if b != nil {
+		if mv := mockFirstLegal(b); mv != 0 {
+			rv := b.MakeMove(mv)
+			defer b.UndoMove(mv, rv)
+		}
+	}
 	m.softSeen = append(m.softSeen, o.SoftTime)
 	m.depthSeen = append(m.depthSeen, int(o.Depth))
 	pm := move.Move(0)
@@ -123,6 +132,22 @@ func (m *mockSearch) Go(b *board.Board, opts ...search.Option) (Score, move.Move
 	}
 	return 0, mockBest, pm
 }
+func mockFirstLegal(b *board.Board) move.Move {
+	ms := move.NewStore()
+	ms.Push()
+	movegen.GenNotNoisy(ms, b)
+	movegen.GenNoisy(ms, b)
+	for _, w := range ms.Frame() {
+		rv := b.MakeMove(w.Move)
+		ok := !b.InCheck(b.STM.Flip())
+		b.UndoMove(w.Move, rv)
+		if ok {
+			return w.Move
+		}
+	}
+	return 0
+}
+
 func (m *mockSearch) Clear()       {}
 func (m *mockSearch) ResizeTT(int) {}
 
@@ -463,11 +488,11 @@ func c13Scripts(thorough bool) []c13Script {
 		{nil, "go depth 1", []mockSpec{{Polls: 2}}, false},
 		{nil, "go movetime 5", []mockSpec{{Polls: 2}}, false},
 		{nil, "go movetime 5", []mockSpec{{Polls: 1, Block: true}}, false},
-		{nil, "go wtime 1000 btime 1000 winc 10 binc 10", []mockSpec{{Polls: 1}}, false},
-		{nil, "go wtime 1000 btime 1000 winc 10 binc 10", []mockSpec{{Polls: 1, Block: true}}, false},
-		{[]string{"setoption name Ponder value true"}, "go ponder wtime 1000 btime 1000", []mockSpec{{Polls: 1, Ponder: true}}, true},
-		{[]string{"setoption name Ponder value true"}, "go ponder wtime 1000 btime 1000", []mockSpec{{Polls: 1, Ponder: true, BlockAfter: true}}, true},
-		{[]string{"setoption name Ponder value true"}, "go ponder wtime 1000 btime 1000", []mockSpec{{Polls: 2, Ponder: true, Finish: true}}, true},
+		{nil, "go wtime 1000 btime 3000 winc 10 binc 40", []mockSpec{{Polls: 1}}, false},
+		{nil, "go wtime 1000 btime 3000 winc 10 binc 40", []mockSpec{{Polls: 1, Block: true}}, false},
+		{[]string{"setoption name Ponder value true"}, "go ponder wtime 1000 btime 3000", []mockSpec{{Polls: 1, Ponder: true}}, true},
+		{[]string{"setoption name Ponder value true"}, "go ponder wtime 1000 btime 3000", []mockSpec{{Polls: 1, Ponder: true, BlockAfter: true}}, true},
+		{[]string{"setoption name Ponder value true"}, "go ponder wtime 1000 btime 3000", []mockSpec{{Polls: 2, Ponder: true, Finish: true}}, true},
 	}
 	if thorough {
 		// more info lines than the output channel holds (back-pressure on the search while commands arrive)
@@ -538,7 +563,7 @@ func c13Scripts(thorough bool) []c13Script {
 	// hand-written scripts outside the product grammar: two ponder searches in a row (what one leaves in the
 	// hand-over channel meets the next), and commands with tabs / surplus blanks around their words
 	// ("arbitrary white space between tokens is allowed")
-	pon, gp := "setoption name Ponder value true", "go ponder wtime 1000 btime 1000"
+	pon, gp := "setoption name Ponder value true", "go ponder wtime 1000 btime 3000"
 	two := []string{pon, gp, "ponderhit", "stop", gp, "ponderhit", "stop", "isready"}
 	out = append(out,
 		c13Script{Name: "x-two-ponder-deaf", Lines: two, Mocks: []mockSpec{{Polls: 1, Block: true, Deaf: true}, {Polls: 1, Block: true, Deaf: true}}},
